@@ -104,6 +104,18 @@ async fn run() -> Vec<String> {
     if format!("{via:?}") != format!("{raw:?}") {
         fails.push(format!("batch_get through the manager returns {via:?}, the database holds {raw:?}"));
     }
+    // a pending (uncommitted) value that a batched read inside the transaction has seen must not
+    // survive the rollback in the cache
+    m.set(vs("p", 1, "p-committed")).await.unwrap();
+    m.set(vs("q", 1, "q-committed")).await.unwrap();
+    m.flush_cache().await;
+    m.begin_transaction();
+    m.set(vs("p", 1, "p-pending")).await.unwrap();
+    let _ = m.batch_get::<ValueState>(&[key("p", 1), key("q", 1)]).await;
+    let _ = m.rollback_transaction();
+    for u in ["p", "q"] {
+        check(format!("after a rolled-back transaction whose pending value of {u:?} a batch_get had read"), val_of(&m.get::<ValueState>(&key(u, 1)).await), val_of(&db.inner.get::<ValueState>(&key(u, 1)).await), &mut fails);
+    }
     // accepted writes are visible, a flush changes nothing observable
     m.set(vs("a", 1, "v3")).await.unwrap();
     check("after an accepted overwrite".into(), val_of(&m.get::<ValueState>(&key("a", 1)).await), val_of(&db.inner.get::<ValueState>(&key("a", 1)).await), &mut fails);
